@@ -447,7 +447,7 @@ func urlEscape(s string) string {
 // ---------------------------------------------------------------- timing scenarios
 
 type TimingSpec struct {
-	Fates []string `json:"fates"` // one per message: timeout | touch1 | touch2 | touchcap | req0 | req200 | req700 | dpub200 | dpub700
+	Fates []string `json:"fates"` // one per message: timeout | touch1 | touch2 | touchcap | touch3 | req0 | req200 | req700 | dpub200 | dpub700
 	MsgTO int      `json:"msgto"` // negotiated msg_timeout in ms (0 = default 1000)
 }
 
@@ -523,6 +523,11 @@ func RunTiming(spec TimingSpec) vx.Out {
 				if L[i] > maxMsgTO {
 					L[i] = maxMsgTO
 				}
+			case "touch3":
+				// three TOUCHes, the last one 100 ms before the cap: the cap is measured from
+				// the delivery, not from the previous TOUCH
+				evs = append(evs, ev{900, "TOUCH", i}, ev{1800, "TOUCH", i}, ev{2400, "TOUCH", i})
+				L[i] = maxMsgTO
 			case "req0":
 				evs = append(evs, ev{300, "REQ 0", i})
 				L[i] = 300
@@ -577,15 +582,17 @@ func RunTiming(spec TimingSpec) vx.Out {
 		ds := deliv[body]
 		obs += fmt.Sprintf("%s:%v ", fate, ds)
 		if len(ds) <= which[i] {
-			bad("C04 message not redelivered in bounded time", "%s (%s): deliveries at %v ms, expected delivery #%d at %d..%d ms", body, fate, ds, which[i]+1, L[i], L[i]+1000)
+			bad("C04 message not redelivered in bounded time", "%s (%s): deliveries at %v ms, expected delivery #%d at %d..%d ms", body, fate, ds, which[i]+1, L[i], L[i]+500)
 			continue
 		}
 		at := ds[which[i]]
 		if at < L[i] {
 			bad("C04 delivered early", "%s (%s): delivery #%d at +%d ms, not legal before +%d ms (all deliveries %v)", body, fate, which[i]+1, at, L[i], ds)
 		}
-		if at > L[i]+1000 {
-			bad("C04 delivered late", "%s (%s): delivery #%d at +%d ms, bound +%d ms (all deliveries %v)", body, fate, which[i]+1, at, L[i]+1000, ds)
+		// the channel is older than the scan refresh interval, so it is scanned at every
+		// queue-scan tick (500 ms): the message is due at the first tick at or after L
+		if at > L[i]+500 {
+			bad("C04 delivered late", "%s (%s): delivery #%d at +%d ms, legal from +%d ms and due at the next queue scan, i.e. by +%d ms (all deliveries %v)", body, fate, which[i]+1, at, L[i], L[i]+500, ds)
 		}
 	}
 	return vx.Out{Obs: obs, Viol: viol}
